@@ -142,7 +142,8 @@ Example C08_ex_terminates :     (* output, exit 3, timer after the exit, EOFs: e
   let script := [EChunk WOut; EExit 3%Z; ETimer; EEof WErr; EEof WOut] in
   start_raises c = false /\ fair c = true /\ process_ends c script = true /\
   observe (run_sm c script) =
-    mkSmObs (Some OTimedOut) 1 1 0 1 true [] false true true 1 0.
+    mkSmObs (Some OTimedOut) 1 1 0 1 true [] false true true 1 0
+            [(WOut, false); (WIn, false); (WErr, false)].
 Proof. vm_compute. auto. Qed.
 
 Example C08_ex_dead_worker :    (* stderr worker dies, stdout pipe held: 1 s join timeout, reported *)
